@@ -178,6 +178,22 @@ func loadDeb(archive *Ar) (*Deb, error) {
 		if err != nil {
 			return nil, err
 		}
+		if _, found := contents[member.Name]; found {
+			return nil, fmt.Errorf("Archive contains two members named '%s'", member.Name)
+		}
+		for _, prefix := range []string{"control.", "data."} {
+			if !strings.HasPrefix(member.Name, prefix) {
+				continue
+			}
+			for name := range contents {
+				if strings.HasPrefix(name, prefix) {
+					return nil, fmt.Errorf(
+						"Archive contains more than one '%s' member: '%s' and '%s'",
+						prefix, name, member.Name,
+					)
+				}
+			}
+		}
 		contents[member.Name] = member
 	}
 	member, ok := contents["debian-binary"]
